@@ -718,12 +718,12 @@ def execStmt (w : World τ) (a : ActId) (fs : List (Frame τ)) : Stmt τ → Wor
       (w.awakeAll ch.notif).doPostpone a fs
   | .cGet c =>                                                         -- streams.py Channel.__await__
     let ch := w.chans.getD c default
-    let w := w.emit a "csub" [c, 0]
-    if ch.closed then w.raiseNew a fs .streamClosed
+    if ch.closed then (w.emit a "csub" [c, 0, -1]).raiseNew a fs .streamClosed
     else
       let key := ch.nextKey
+      let w := w.emit a "csub" [c, 0, key]
       let w := { w with chans := w.chans.modify c (fun x => { x with buffers := x.buffers ++ [(key, [])], nextKey := key + 1 }) }
-      w.doNotifAwait a (.cGetWait c key :: .gotValue :: fs) ch.notif
+      w.doNotifAwait a (.cGetWait c key :: .cGotValue c key :: fs) ch.notif
   | .cClose c =>
     let ch := w.chans.getD c default
     let w := if !ch.closed then
@@ -732,8 +732,8 @@ def execStmt (w : World τ) (a : ActId) (fs : List (Frame τ)) : Stmt τ → Wor
     w.doPostpone a fs
   | .cIter c n body =>
     let ch := w.chans.getD c default
-    let w := w.emit a "csub" [c, 1]
     let key := ch.nextKey
+    let w := w.emit a "csub" [c, 1, key]
     let w := { w with chans := w.chans.modify c (fun x => { x with buffers := x.buffers ++ [(key, [])], nextKey := key + 1 }) }
     w.retTo a (.cIterLoop c key n body :: fs) .unit
   | .setTracked x v => (w.setTrackedValue x v).doPostpone a fs
@@ -746,11 +746,11 @@ def execStmt (w : World τ) (a : ActId) (fs : List (Frame τ)) : Stmt τ → Wor
     | some rid =>
       let w := w.emit a "reschange" ((r : Int) :: (kind : Int) :: amounts)
       let levels := (w.res.getD rid default).levels
-      if w.cfg.debug && amounts.any (fun x => x < 0 && !(kind == 2 && x == -1)) then w.raiseNew a fs (.assertion 4)
+      if w.cfg.debug && amounts.any (fun x => x < 0 && !(kind == 2 && x == -1)) then (w.emit a "resrej" [r]).raiseNew a fs (.assertion 4)
       else match kind with
         | 0 => (w.setLevels rid (vecAdd levels amounts)).doPostpone a fs
         | 1 =>
-          if w.cfg.debug && (vecSub levels amounts).any (· < 0) then w.raiseNew a fs (.assertion 4)
+          if w.cfg.debug && (vecSub levels amounts).any (· < 0) then (w.emit a "resrej" [r]).raiseNew a fs (.assertion 4)
           else (w.setLevels rid (vecSub levels amounts)).doPostpone a fs
         | _ => (w.setLevels rid ((levels.zip amounts).map (fun p => if p.2 == -1 then p.1 else p.2))).doPostpone a fs
   | .logLevels r =>
@@ -1017,6 +1017,7 @@ def stepRet (w : World τ) (a : ActId) (f : Frame τ) (fs : List (Frame τ)) (v 
       if (w.queues.getD q default).closed then w.raiseNew a fs .streamClosed
       else w.raiseNew a fs (.assertion 6)
   | .gotValue => (w.emit a "got" [valInt v]).retTo a fs .unit
+  | .cGotValue c key => (w.emit a "got" [valInt v, c, key]).retTo a fs .unit
   | .qIterNext q rem body =>
     if rem == 0 then w.retTo a fs .unit
     else (w.emit a "getreq" [q]).acquireLock a (.qIterGot q rem body :: fs) (w.queues.getD q default).mutex (.queueGet q)
@@ -1033,16 +1034,17 @@ def stepRet (w : World τ) (a : ActId) (f : Frame τ) (fs : List (Frame τ)) (v 
     let ch := w.chans.getD c default
     let dereg (w : World τ) : World τ :=
       { w with chans := w.chans.modify c (fun x => { x with buffers := x.buffers.filter (·.1 != key) }) }
-    if rem == 0 then (dereg w).retTo a fs .unit
+    if rem == 0 then ((dereg w).emit a "cleave" [c, key]).retTo a fs .unit
     else
       match ((ch.buffers.find? (·.1 == key)).map (·.2)).getD [] with
       | x :: rest =>
         let w := { w with chans := w.chans.modify c (fun y => { y with buffers := y.buffers.map (fun (b : Nat × List Int) => if b.1 == key then (b.1, rest) else b) }) }
-        (w.emit a "got" [x]).retTo a (.seq body :: .cIterLoop c key (rem - 1) body :: fs) .unit
+        (w.emit a "got" [x, c, key]).retTo a (.seq body :: .cIterNext c key (rem - 1) :: .cIterLoop c key (rem - 1) body :: fs) .unit
       | [] =>
-        if ch.closed then ((dereg w).emit a "cend" [c]).retTo a fs .unit
+        if ch.closed then ((dereg w).emit a "cend" [c, key]).retTo a fs .unit
         else w.doNotifAwait a (.cIterWait c key rem body :: fs) ch.notif
   | .cIterWait c key rem body => w.retTo a (.cIterLoop c key rem body :: fs) .unit
+  | .cIterNext c key rem => (if rem > 0 then w.emit a "cnext" [c, key] else w).retTo a fs .unit
   | .borrowWait r b body =>
     let rs := w.res.getD r default
     let debits := (w.res.getD b default).debits
@@ -1249,7 +1251,10 @@ def stepRaise (w : World τ) (a : ActId) (f : Frame τ) (fs : List (Frame τ)) (
   | .scopeExitSet s | .scopeExitWait s _ => w.beginClose a fs s (some e) true
   | .scopeClose s .. => (w.emitScope a s "sexit" [(w.scope s).name, (w.scope s).inst, 1, w.notDone s]).raiseTo a fs e
   | .tryBlock handlers =>
-    match handlers.find? (fun h => h.1.any (fun p => patMatches p (w.exn e))) with
+    let isCancel : Bool := match w.exn e with
+      | .sig sg => (match (w.sig sg).kind with | .cancelTask .. => true | _ => false)
+      | _ => false
+    match handlers.find? (fun h => h.1.any (fun p => patMatches p (w.exn e) || (p == .cancelTask && isCancel))) with
     | some h =>
       -- being closed synchronously (`__runner__.close()` by the activity below on the control stack): every
       -- statement of the program is its own coroutine level, and `close()` raises GeneratorExit at each level
@@ -1269,7 +1274,7 @@ def stepRaise (w : World τ) (a : ActId) (f : Frame τ) (fs : List (Frame τ)) (
     let w := { w with locks := w.locks.modify l (fun x => { x with depth := x.depth - 1 }) }
     let w := if (w.locks.getD l default).depth == 0 then w.lockRelease l else w
     w.raiseTo a fs e
-  | .qGetPop _ | .gotValue | .qIterNext .. | .cIterWait .. => 
+  | .qGetPop _ | .gotValue | .cGotValue .. | .qIterNext .. | .cIterWait .. | .cIterNext .. =>
     match f with
     | .cIterWait c key _ _ =>
       ({ w with chans := w.chans.modify c (fun x => { x with buffers := x.buffers.filter (·.1 != key) }) }).raiseTo a fs e
@@ -1428,7 +1433,8 @@ structure Decls (τ : Type) where
   resources : List (List Int × Bool) := []
   pipes : List (Option τ) := []
 
-def initWorld (cfg : Config) (start : τ) (d : Decls τ) (roots : List (Prog τ)) (till : Option τ := none) : World τ :=
+/-- the world with the program's global objects, before any activity exists -/
+def initDecls (cfg : Config) (start : τ) (d : Decls τ) : World τ :=
   let w : World τ := { cfg := cfg, time := start }
   -- flags: each `Flag()` creates its `InverseFlag`
   let w := (List.range d.flags).foldl (fun (w : World τ) f =>
@@ -1460,6 +1466,10 @@ def initWorld (cfg : Config) (start : τ) (d : Decls τ) (roots : List (Prog τ)
   let w := d.pipes.foldl (fun (w : World τ) (t : Option τ) =>
     let (w, n) := w.newCond .plain
     { w with pipes := w.pipes.push { throughput := t, scale := TimeLike.ofInt 1, congested := n } }) w
+  w
+
+def initWorld (cfg : Config) (start : τ) (d : Decls τ) (roots : List (Prog τ)) (till : Option τ := none) : World τ :=
+  let w := initDecls cfg start d
   -- root activities are pushed into the time queue at `start` (loop.py:131-132)
   match till with
   | none =>
